@@ -31,7 +31,7 @@ type C18Case struct {
 	Free   bool         `json:"free,omitempty"`
 }
 
-func c18Key(i int) bt.BS      { return bt.BS(fmt.Sprintf("r%05d", i)) }
+func c18Key(i int) bt.BS       { return bt.BS(fmt.Sprintf("r%05d", i)) }
 func c18InsKey(i, g int) bt.BS { return bt.BS(fmt.Sprintf("r%05d-ins%d", i, g)) }
 
 func genC18(free bool) *rapid.Generator[C18Case] {
